@@ -125,18 +125,27 @@ Ltac ev_hook ::= try change (N.to_nat (69 mod 16) * 4)%nat with 20%nat;
    repeat match goal with E : N.to_nat ?t = _ |- context [N.to_nat ?t] => rewrite E end.
 Opaque ip4_calc_checksum.
 
-Lemma ip4_payload_frame tl ttl proto src dst (B T : bytes) :
+Lemma ip4_payload_frame_padded tl ttl proto src dst (B T : bytes) k :
   length src = 4%nat -> length dst = 4%nat -> tl = 20 + N.of_nat (length B) -> tl < 65536 ->
-  ip4_payload (mkSlice (ip4_store_checksum (ip4_hdr0 tl ttl proto src dst) ++ B ++ T) (20 + length B))
+  (k <= length T)%nat ->
+  ip4_payload (mkSlice (ip4_store_checksum (ip4_hdr0 tl ttl proto src dst) ++ B ++ T) (20 + length B + k))
   = Ok (mkSlice (B ++ T) (length B)).
 Proof.
-  intros Hs Hd Htl Hsz.
+  intros Hs Hd Htl Hsz Hk.
   assert (Etl : N.to_nat tl = (20 + length B)%nat) by lia.
   do 4 (destr_list src Hs). destruct src; [|discriminate].
   do 4 (destr_list dst Hd). destruct dst; [|discriminate].
   unfold ip4_store_checksum, ip4_hdr0. cbn [app set_nth].
   unfold ip4_payload, ip4_ihl, ip4_totlen, idx, be16_at, sl, cap. run.
   rewrite Nat.sub_0_r. reflexivity.
+Qed.
+
+Lemma ip4_payload_frame tl ttl proto src dst (B T : bytes) :
+  length src = 4%nat -> length dst = 4%nat -> tl = 20 + N.of_nat (length B) -> tl < 65536 ->
+  ip4_payload (mkSlice (ip4_store_checksum (ip4_hdr0 tl ttl proto src dst) ++ B ++ T) (20 + length B))
+  = Ok (mkSlice (B ++ T) (length B)).
+Proof.
+  intros. rewrite <- (Nat.add_0_r (20 + length B)). apply ip4_payload_frame_padded; try assumption. lia.
 Qed.
 
 Ltac ev_hook ::=
@@ -148,13 +157,14 @@ Ltac ev_hook ::=
   repeat match goal with E : N.to_nat ?t = _ |- context [N.to_nat ?t] => rewrite E end.
 
 (* Session.Parse on the finished frame: classification by ports *)
-Lemma parse_class_frame4 smac dmac ttl sip dip sp dp data T :
+Lemma parse_class_frame4_padded smac dmac ttl sip dip sp dp data T k :
   length smac = 6%nat -> length dmac = 6%nat -> length sip = 4%nat -> length dip = 4%nat ->
   N.land (nth 0 smac 0) 1 = 0 -> sp < 65536 -> dp < 65536 -> 42 + N.of_nat (length data) < 65536 ->
-  parse_class (mkSlice (frame4_bytes smac dmac ttl sip dip sp dp data ++ T) (42 + length data))
+  (k <= length T)%nat ->
+  parse_class (mkSlice (frame4_bytes smac dmac ttl sip dip sp dp data ++ T) (42 + length data + k))
   = Ok (class_of_ports sp dp, false).
 Proof.
-  intros Hsm Hdm Hsi Hdi Huni Hsp Hdp Hsz.
+  intros Hsm Hdm Hsi Hdi Huni Hsp Hdp Hsz Hk.
   do 6 (destr_list smac Hsm). destruct smac; [|discriminate].
   do 6 (destr_list dmac Hdm). destruct dmac; [|discriminate].
   do 4 (destr_list sip Hsi). destruct sip; [|discriminate].
@@ -169,6 +179,15 @@ Proof.
     ip4_totlen, ip4_protocol, udp_is_valid, udp_srcport, udp_dstport, idx, be16_at, sl, slfrom, cap.
   run. rewrite Huni. change (0 =? 0) with true. cbn [negb]. run.
   change (17 =? IPPROTO_UDP) with true. cbn iota. reflexivity.
+Qed.
+
+Lemma parse_class_frame4 smac dmac ttl sip dip sp dp data T :
+  length smac = 6%nat -> length dmac = 6%nat -> length sip = 4%nat -> length dip = 4%nat ->
+  N.land (nth 0 smac 0) 1 = 0 -> sp < 65536 -> dp < 65536 -> 42 + N.of_nat (length data) < 65536 ->
+  parse_class (mkSlice (frame4_bytes smac dmac ttl sip dip sp dp data ++ T) (42 + length data))
+  = Ok (class_of_ports sp dp, false).
+Proof.
+  intros. rewrite <- (Nat.add_0_r (42 + length data)). apply parse_class_frame4_padded; try assumption. lia.
 Qed.
 
 Ltac ev_hook ::= idtac.
@@ -306,3 +325,128 @@ Proof. intros Hs Hd. unfold class_of_ports. eph_rewrite sp Hs. eph_rewrite dp Hd
 Example class_of_ports_ex : class_of_ports 68 67 = PayloadDHCP4 /\ class_of_ports 50000 53 = PayloadDNS /\
                             ephemeral 50000.
 Proof. split; [reflexivity|split; [reflexivity|]]. intros q Hq. cbn in Hq. intuition (subst; discriminate). Qed.
+
+Ltac blia := unfold bytes, byte in *; lia.
+
+(* ================================================================ *)
+(* A small IPv4/UDP packet built in its own buffer and wrapped by Ether.AppendPayload (60-byte
+   minimum padding): the Ethernet payload carries bytes beyond TotalLen. *)
+Definition packet4_bytes (ttl proto : N) (sip dip inner : bytes) : bytes :=
+  ip4_store_checksum (ip4_hdr0 (20 + N.of_nat (length inner)) ttl proto sip dip) ++ inner.
+
+Lemma packet_udp4_bytes ttl sip dip sp dp data :
+  is4 sip = true -> is4 dip = true -> 28 + N.of_nat (length data) < 65536 ->
+  packet_udp4 ttl sip dip sp dp data =
+  Ok (mkSlice (packet4_bytes ttl 17 sip dip (udp_hdr sp dp (8 + N.of_nat (length data)) ++ data)) (28 + length data)).
+Proof.
+  intros Hsi Hdi Hsz.
+  assert (Hsi' : length sip = 4%nat) by (apply Nat.eqb_eq; exact Hsi).
+  assert (Hdi' : length dip = 4%nat) by (apply Nat.eqb_eq; exact Hdi).
+  unfold packet_udp4. set (n := (28 + length data)%nat).
+  assert (Hnil : skipn (length data) (skipn 8 (skipn 20 (repeat 0 n))) = []).
+  { apply length_zero_iff_nil. rewrite !skipn_length, repeat_length. unfold n. blia. }
+  rewrite encode_ip4_bytes; [|cbn [len]; unfold n; blia|unfold cap; cbn [arr]; rewrite repeat_length; unfold n; blia|assumption|assumption].
+  cbn [bind arr]. rewrite ip4_payload_encoded by assumption. cbn [bind].
+  rewrite encode_udp_bytes by (unfold cap; cbn [arr]; rewrite ?skipn_length, ?repeat_length; unfold n; blia). cbn [bind arr].
+  rewrite udp_append_bytes by (rewrite ?skipn_length, ?repeat_length; unfold n; blia). cbn [bind arr len].
+  rewrite udp_lenfield_small by blia.
+  unfold bytes, byte in *. rewrite Hnil.
+  rewrite writeback_app by (rewrite !app_length, !skipn_length, repeat_length; cbn [udp_hdr length]; unfold n; blia).
+  rewrite ip4_set_payload_bytes by (try assumption; rewrite ?app_length; cbn [udp_hdr length]; blia).
+  f_equal. f_equal.
+  unfold packet4_bytes. rewrite app_nil_r. rewrite app_length. cbn [udp_hdr length]. reflexivity.
+Qed.
+
+Theorem pad4u_rt b smac dmac ttl sip dip sp dp data :
+  (60 <= cap b)%nat -> (42 + length data <= cap b)%nat -> length smac = 6%nat -> length dmac = 6%nat ->
+  is4 sip = true -> is4 dip = true -> 42 + N.of_nat (length data) < 65536 ->
+  bytes_ok smac -> bytes_ok dmac -> bytes_ok sip -> bytes_ok dip -> bytes_ok data ->
+  ttl < 256 -> sp < 65536 -> dp < 65536 -> N.land (nth 0 smac 0) 1 = 0 ->
+  let udpb := udp_hdr sp dp (8 + N.of_nat (length data)) ++ data in
+  let P := packet4_bytes ttl 17 sip dip udpb in
+  exists f,
+    ether_wrap4 b smac dmac (packet_udp4 ttl sip dip sp dp data) = Ok f /\
+    len f = Nat.max 60 (42 + length data) /\ cap f = cap b /\
+    view f = ether_hdr dmac smac ETH_P_IP ++ pad46 P /\
+    parse_class f = Ok (class_of_ports sp dp, false) /\
+    (* reference decoders: the Ethernet payload is the packet plus zero padding; the IPv4
+       decoder stops at TotalLen; UDP length = 8 + |data| *)
+    ref_ether (view f) = Some {| re_dst := dmac; re_src := smac; re_type := ETH_P_IP; re_payload := pad46 P |} /\
+    ref_ip4 (pad46 P) = Some (ip4_expected_ref ttl 17 sip dip udpb) /\
+    ref_udp udpb = Some (udp_expected_ref sp dp data) /\
+    (* library views, each obtained from the outer one by its Payload() getter *)
+    (ipv <- ether_payload f ;; Ok (len ipv))%res = Ok (Nat.max 46 (28 + length data)) /\
+    (ipv <- ether_payload f ;; ip4_decode_lib ipv)%res = Ok (ip4_expected_view ttl 17 sip dip udpb) /\
+    (ipv <- ether_payload f ;; u <- ip4_payload ipv ;; Ok (len u))%res = Ok (8 + length data)%nat /\
+    (ipv <- ether_payload f ;; u <- ip4_payload ipv ;; udp_decode_lib u)%res = Ok (udp_expected_view sp dp data).
+Proof.
+  intros H60 Hc Hsm Hdm Hsi Hdi Hsz Bsm Bdm Bsi Bdi Bd Httl Hsp Hdp Huni udpb P.
+  assert (Hsi' : length sip = 4%nat) by (apply Nat.eqb_eq; exact Hsi).
+  assert (Hdi' : length dip = 4%nat) by (apply Nat.eqb_eq; exact Hdi).
+  assert (Hub : length udpb = (8 + length data)%nat) by (unfold udpb; rewrite app_length; reflexivity).
+  set (tl := 20 + N.of_nat (length udpb)).
+  set (CK := ip4_store_checksum (ip4_hdr0 tl ttl 17 sip dip)).
+  assert (HCK : length CK = 20%nat).
+  { unfold CK, ip4_store_checksum. rewrite !set_nth_length. unfold ip4_hdr0. cbn [app length]. rewrite app_length. blia. }
+  assert (HP : P = CK ++ udpb) by reflexivity.
+  assert (HPl : length P = (28 + length data)%nat) by (rewrite HP, app_length, HCK, Hub; blia).
+  set (Z := repeat 0 (46 - length P)).
+  assert (HZ : length Z = (46 - length P)%nat) by apply repeat_length.
+  assert (Hpad : pad46 P = CK ++ udpb ++ Z) by (unfold pad46; fold Z; rewrite HP, <- app_assoc; reflexivity).
+  assert (Hpl : length (pad46 P) = Nat.max 46 (28 + length data)) by (rewrite pad46_length, HPl; reflexivity).
+  assert (HEH : length (ether_hdr dmac smac ETH_P_IP) = 14%nat).
+  { unfold ether_hdr. rewrite !app_length. cbn [length]. blia. }
+  set (rest := skipn 14 (arr b)).
+  assert (Hrest : length rest = (cap b - 14)%nat) by (unfold rest, cap; apply skipn_length).
+  set (T := skipn (length (pad46 P)) rest).
+  assert (Hwrap : ether_wrap4 b smac dmac (packet_udp4 ttl sip dip sp dp data)
+                  = Ok (mkSlice (ether_hdr dmac smac ETH_P_IP ++ pad46 P ++ T) (14 + length (pad46 P)))).
+  { unfold ether_wrap4. rewrite encode_ether_bytes by (try assumption; blia). cbn [bind].
+    rewrite packet_udp4_bytes by (try assumption; blia). cbn [bind].
+    assert (Hview : view (mkSlice (packet4_bytes ttl 17 sip dip udpb) (28 + length data)) = P).
+    { unfold view. cbn [arr len]. fold P. rewrite <- HPl. apply firstn_all. }
+    fold udpb. rewrite Hview. unfold T. fold rest.
+    apply ether_append_bytes; try assumption; try reflexivity; blia. }
+  eexists. split. { exact Hwrap. }
+  split. { cbn [len]. rewrite Hpl. blia. }
+  split. { unfold cap at 1. cbn [arr]. unfold T. rewrite !app_length, skipn_length, HEH, Hrest, Hpl. blia. }
+  assert (Hv : view (mkSlice (ether_hdr dmac smac ETH_P_IP ++ pad46 P ++ T) (14 + length (pad46 P)))
+               = ether_hdr dmac smac ETH_P_IP ++ pad46 P).
+  { unfold view. cbn [arr len]. rewrite app_assoc. apply firstn_app_len. rewrite app_length, HEH. reflexivity. }
+  split. { exact Hv. }
+  assert (Htl : tl = 20 + N.of_nat (length udpb)) by reflexivity.
+  assert (Htl' : tl < 65536) by (unfold tl; blia).
+  assert (Bu : bytes_ok udpb).
+  { unfold udpb, udp_hdr. cbn [app]. repeat (apply bytes_ok_cons; split; [first [blia | apply hi8_lt | apply lo8_lt]|]). assumption. }
+  (* the frame as frame4_bytes ++ (Z ++ T) *)
+  assert (Hfr : ether_hdr dmac smac ETH_P_IP ++ pad46 P ++ T
+                = frame4_bytes smac dmac ttl sip dip sp dp data ++ (Z ++ T)).
+  { rewrite Hpad. unfold frame4_bytes. fold udpb. unfold CK, tl. rewrite Hub. rewrite <- !app_assoc. reflexivity. }
+  split.
+  { rewrite Hfr. replace (14 + length (pad46 P))%nat with (42 + length data + length Z)%nat by blia.
+    apply parse_class_frame4_padded; try assumption. rewrite app_length. blia. }
+  split. { rewrite Hv. apply ref_ether_hdr; try assumption. reflexivity. }
+  pose proof (ip4_frame_decodes_padded tl ttl 17 sip dip udpb (Z ++ T) (length Z) Hsi' Hdi' Bsi Bdi Bu Httl ltac:(lia) Htl Htl'
+                ltac:(rewrite app_length; blia)) as D4.
+  cbn zeta in D4. fold CK in D4. destruct D4 as (D4v & D4lib & D4ref).
+  rewrite D4v in D4ref. rewrite firstn_app_exact in D4ref.
+  split. { rewrite Hpad. rewrite D4ref. reflexivity. }
+  pose proof (udp_frame_decodes sp dp data (Z ++ T) Hsp Hdp Bd ltac:(lia)) as DU.
+  cbn zeta in DU. destruct DU as (_ & DUlib & DUref).
+  assert (Huview : view (mkSlice (udp_hdr sp dp (8 + N.of_nat (length data)) ++ data ++ Z ++ T) (8 + length data)) = udpb).
+  { unfold view. cbn [arr len]. unfold udpb. rewrite app_assoc. apply firstn_app_len. rewrite app_length. reflexivity. }
+  rewrite Huview in DUref.
+  split. { exact DUref. }
+  assert (Hep : ether_payload (mkSlice (ether_hdr dmac smac ETH_P_IP ++ pad46 P ++ T) (14 + length (pad46 P)))
+                = Ok (mkSlice (CK ++ udpb ++ Z ++ T) (20 + length udpb + length Z))).
+  { rewrite ether_payload_frame by (try assumption; try reflexivity; blia).
+    replace (length (pad46 P)) with (20 + length udpb + length Z)%nat by blia.
+    rewrite Hpad, <- !app_assoc. reflexivity. }
+  split. { rewrite Hep. cbn [bind len]. f_equal. blia. }
+  split. { rewrite Hep. cbn [bind]. exact D4lib. }
+  pose proof (ip4_payload_frame_padded tl ttl 17 sip dip udpb (Z ++ T) (length Z) Hsi' Hdi' Htl Htl'
+                ltac:(rewrite app_length; blia)) as Hpl4. fold CK in Hpl4.
+  split. { rewrite Hep. cbn [bind]. rewrite Hpl4. cbn [bind len]. rewrite Hub. reflexivity. }
+  rewrite Hep. cbn [bind]. rewrite Hpl4. cbn [bind].
+  rewrite Hub. unfold udpb. rewrite <- app_assoc. exact DUlib.
+Qed.
